@@ -261,6 +261,6 @@ func (pxy *UDPProxy) Close() {
 		close(pxy.checkCloseCh)
 		close(pxy.readCh)
 		close(pxy.sendCh)
+		pxy.rc.UDPPortManager.Release(pxy.realBindPort)
 	}
-	pxy.rc.UDPPortManager.Release(pxy.realBindPort)
 }
